@@ -1901,7 +1901,7 @@ def ltu(x, y):
             return op(OP_LTU, x, y)
     except AttributeError:
         pass
-    x.sf = y.sf = True
+    x.sf = y.sf = False
     return x < y
 
 
@@ -1912,7 +1912,7 @@ def geu(x, y):
             return op(OP_GEU, x, y)
     except AttributeError:
         pass
-    x.sf = y.sf = True
+    x.sf = y.sf = False
     return x >= y
 
 
